@@ -546,6 +546,58 @@ def explore_random(run, acct, H, rng, n_total, strategy, offset=0):
 
 
 # ------------------------------------------------------------------------------------------ free-running stress
+def async_cancellation(run):
+    """The subscription's asynchronous iterator under task cancellation (asyncio is one thread: the interleavings are
+    the event-loop turns).  A consumer iterating with ``async for`` is cancelled after n loop turns, for every n; what it
+    did not receive must still be in the channel, nothing may be lost or duplicated, order is kept."""
+    import asyncio
+
+    boot.boot()
+    from semantiva.execution.transport.in_memory import InMemorySemantivaTransport
+
+    async def scenario(n_turns, n_msgs):
+        tr = InMemorySemantivaTransport()
+        tr.connect()
+        sent = [("A", "a.x", k) for k in range(n_msgs)]
+        for d in sent:
+            tr.publish("a.x", d, {})
+        got = []
+
+        async def consumer():
+            sub = tr.subscribe("a.*")
+            async for m in sub:
+                got.append(m.data)
+                await asyncio.sleep(0)
+
+        task = asyncio.ensure_future(consumer())
+        for _ in range(n_turns):
+            await asyncio.sleep(0)
+        task.cancel()
+        try:
+            await task
+        except asyncio.CancelledError:
+            pass
+        rest = [m.data for m in tr.subscribe("*")]
+        return sent, got, rest
+
+    for n_msgs in (1, 3, 5):
+        for n_turns in range(0, 3 * n_msgs + 4):
+            sent, got, rest = asyncio.run(scenario(n_turns, n_msgs))
+            run.count("async_cancellation_scenarios")
+            allseen = got + rest
+            if sorted(allseen) != sorted(sent):
+                lost = sorted(set(sent) - set(allseen))
+                dup = sorted({d for d in allseen if allseen.count(d) > 1})
+                run.violation("message_lost_async_iteration_cancelled" if lost else "message_duplicated_async_iteration_cancelled",
+                              f"async consumer cancelled after {n_turns} event-loop turns with {n_msgs} messages queued: lost {lost}, duplicated {dup}",
+                              {"mode": "async_cancellation", "turns": n_turns, "messages": n_msgs, "consumer_got": got, "left_in_channel": rest})
+                return
+            if [d[2] for d in got] != sorted(d[2] for d in got) or [d[2] for d in rest] != sorted(d[2] for d in rest):
+                run.violation("order_violation_async_iteration", f"async consumer / remaining channel out of publication order: {got} / {rest}",
+                              {"mode": "async_cancellation", "turns": n_turns, "messages": n_msgs})
+                return
+
+
 def stress(run, rounds, n_pub=10, n_con=6, msgs=40):
     """Real preemption (switch interval 1 us), no scheduler, same oracle. Sanity backstop only."""
     boot.boot()
@@ -702,6 +754,8 @@ def run(run):
             # informational lock-discipline counters (see _Discipline)
             run.count("queue_mutations_observed", H.disc.mutations)
             run.count("queue_mutations_without_channel_lock_informational", H.disc.unlocked)
+    if run.shard[0] == 0:
+        async_cancellation(run)     # the asynchronous iterator under cancellation at every event-loop turn (deterministic)
     if run.tier == "thorough":
         stress(run, rounds=16)      # 16 shards x 16 rounds x 10 publishers x 40 messages ~ 1e5 messages, 16 threads
     for k in ("watchdog_activations", "scheduler_deadlocks", "schedule_divergences"):
@@ -729,6 +783,11 @@ def run(run):
 
 def replay(run, witness):
     boot.boot()
+    if witness.get("mode") == "async_cancellation":
+        async_cancellation(run)
+        run.case("async-cancellation", True)
+        run.case("replay-second-slot", True)
+        return
     scn = witness["scenario"]
     if witness.get("strategy") == "free_running":
         run.note_inconclusive("free-running stress witnesses are not replayable by schedule")
